@@ -95,6 +95,13 @@ func (s *gkvp) SerializeValueTo(pc *PrintCtx) {
 }
 
 func (s Attrs) SerializeValueTo(pc *PrintCtx) {
+	if pc.jsonMode {
+		// the members of a group are a nested object
+		pc.pcAppendByte('{')
+		_ = serializeAttrs(pc, s)
+		pc.pcAppendByte('}')
+		return
+	}
 	_ = serializeAttrs(pc, s)
 }
 
